@@ -508,6 +508,56 @@ class Fn(object):
             return [term[4]] if term[4] is not None else []
         raise Unsupported('succs of ' + k)
 
+    def loops(self):
+        """natural loops: {header block: set of body blocks} (normal edges only)"""
+        if hasattr(self, '_loops'):
+            return self._loops
+        blocks = [b for b in self.blocks if b not in self.cleanup]
+        succ = {b: [s for s in self.succs(b) if s != EXIT] for b in blocks}
+        # dominators
+        dom = {b: set(blocks) for b in blocks}
+        dom[0] = {0}
+        changed = True
+        preds = {b: [] for b in blocks}
+        for b in blocks:
+            for s2 in succ[b]:
+                preds[s2].append(b)
+        while changed:
+            changed = False
+            for b in blocks:
+                if b == 0:
+                    continue
+                ps = [dom[p] for p in preds[b]]
+                new = set.intersection(*ps) if ps else set()
+                new = new | {b}
+                if new != dom[b]:
+                    dom[b] = new
+                    changed = True
+        loops = {}
+        for b in blocks:
+            for h in succ[b]:
+                if h in dom[b]:  # back edge b -> h
+                    body = loops.setdefault(h, {h})
+                    stack = [b]
+                    while stack:
+                        x = stack.pop()
+                        if x not in body:
+                            body.add(x)
+                            stack.extend(preds[x])
+        self._loops = loops
+        return loops
+
+    def loop_containing_call(self, needle):
+        """header of the innermost loop whose body contains a call whose callee text contains `needle`"""
+        best = None
+        for h, body in self.loops().items():
+            for b in body:
+                t = self.blocks[b][1]
+                if t and t[0] == 'call' and needle in t[2]:
+                    if best is None or len(body) < len(self.loops()[best]):
+                        best = h
+        return best
+
     def _postdom(self):
         blocks = [b for b in self.blocks if b not in self.cleanup]
         succ = {b: self.succs(b) for b in blocks}
